@@ -211,7 +211,9 @@ Qed.
 (* Part 2 — serialize then parse                                                         *)
 Local Open Scope N_scope.
 
-Definition bytes_ok (s : bytes) : Prop := Forall (fun b => b < 256) s.
+(* a storable string: bytes, and at most 65535 of them (StringNode::maxLength — the reader
+   refuses a longer string or key with NoMemory) *)
+Definition bytes_ok (s : bytes) : Prop := Forall (fun b => b < 256) s /\ N.of_nat (length s) <= 65535.
 
 (* documents without floats and raw values, integers in range, object keys pairwise distinct *)
 Fixpoint nofloat (v : jv) : Prop :=
@@ -377,7 +379,7 @@ Proof.
   destruct (pv_enter cf w fuel s 34 _ W G S0 V ltac:(lens)) as (s1 & E1 & G1 & S1 & C1 & F1).
   rewrite (pv_str cf fuel L s s1 E1 C1).
   assert (S2 : stream s1 = write_string str ++ rest) by (rewrite S1; reflexivity).
-  destruct (write_then_parse_string cf str rest fuel s1 DU B G1 S2 ltac:(lens))
+  destruct (write_then_parse_string cf str rest fuel s1 DU (proj1 B) (proj2 B) G1 S2 ltac:(lens))
     as (s' & E' & G' & S' & C' & F').
   rewrite E'. exists s'. splits; auto.
   - left. auto.
@@ -397,7 +399,7 @@ Proof.
   destruct (current_cons s 34 _ G S2 Q) as (s1 & E1 & G1 & S1 & C1 & F1 & _).
   unfold parse_key. rewrite E1. change (is_quote 34) with true. cbv iota.
   assert (S3 : stream s1 = write_string k ++ tail) by (rewrite S1; reflexivity).
-  destruct (write_then_parse_string cf k tail fuel s1 DU B G1 S3 L) as (s' & E' & G' & S' & C' & F').
+  destruct (write_then_parse_string cf k tail fuel s1 DU (proj1 B) (proj2 B) G1 S3 L) as (s' & E' & G' & S' & C' & F').
   exists s'. splits; auto. congruence.
 Qed.
 
